@@ -25,6 +25,8 @@ def main():
         s=by[sys.argv[4]]; struct.pack_into("<I",b,s["o"]+0x28,int(sys.argv[5]))
     elif what=="word":
         s=by[sys.argv[4]]; struct.pack_into("<I",b,s["off"]+int(sys.argv[5]),int(sys.argv[6]))
+    elif what=="shsize":
+        s=by[sys.argv[4]]; struct.pack_into("<Q",b,s["o"]+0x20,int(sys.argv[5],0))
     elif what=="dynstr":
         s=by[".dynamic"]
         for o in range(s["off"], s["off"]+s["size"], 16):
